@@ -188,6 +188,28 @@ def _point(op, obj=None, enabled=None, deadline=None):
     return vt.sched.point(op, obj, enabled, deadline)
 
 
+def _after_op():
+    """A signal that arrived while a call was completing: its Python-level
+    handler runs at the first bytecode boundary after the call returned."""
+    vt = current()
+    if vt is not None and vt.intr and not vt.killed:
+        vt.intr = False
+        h = vt.sched.intr_handler
+        if h is not None:
+            h(vt)
+
+
+def _op(fn):
+    import functools
+
+    @functools.wraps(fn)
+    def wrapper(*a, **kw):
+        r = fn(*a, **kw)
+        _after_op()
+        return r
+    return wrapper
+
+
 # -------------------------------------------------------------------- clock
 def v_monotonic():
     w = _active()
@@ -203,6 +225,7 @@ def v_time():
     return w.now + 1.7e9
 
 
+@_op
 def v_sleep(d):
     w = _active()
     if w is None or not w.virtual_time:
@@ -268,6 +291,7 @@ class VSemLock:
     def _is_zero(self):
         return self._sem.value == 0
 
+    @_op
     def acquire(self, block=True, timeout=None):
         if self.kind == RECURSIVE_MUTEX and self._is_mine():
             self.count += 1
@@ -289,6 +313,7 @@ class VSemLock:
         self.last_tid = cur_tid()
         return True
 
+    @_op
     def release(self):
         s = self._sem
         if self.kind == RECURSIVE_MUTEX:
@@ -434,6 +459,7 @@ def v_dup(fd):
     return _new_fd(_end(fd))
 
 
+@_op
 def v_close(fd):
     if not is_vfd(fd):
         return _real['close'](fd)
@@ -453,6 +479,7 @@ def _io_answer(op, fd, n):
     return w.io_policy(w, op, fd, n)
 
 
+@_op
 def v_read(fd, n):
     if not is_vfd(fd) or _world is None:
         return _real['read'](fd, n)
@@ -482,6 +509,7 @@ def v_read(fd, n):
     return out
 
 
+@_op
 def v_write(fd, data):
     if not is_vfd(fd) or _world is None:
         return _real['write'](fd, data)
@@ -513,6 +541,7 @@ def readable_now(fd):
     return b is not None and (bool(b.data) or b.writers == 0)
 
 
+@_op
 def v_poll(object_list, timeout):
     """Replacement for ``billiard.connection._poll`` (virtual fds only when
     every object is virtual; real ones fall through)."""
@@ -613,6 +642,7 @@ def v_getpid():
     return cur_pid()
 
 
+@_op
 def v_waitpid(pid, flags):
     w = _active()
     if w is None or pid not in w.procs:
@@ -650,6 +680,7 @@ def deliver_signal(p, sig):
         p.pending.append(sig)
 
 
+@_op
 def v_kill(pid, sig):
     w = _active()
     if w is None or pid not in w.procs:
@@ -711,7 +742,7 @@ def v__exit(status):
     w = _active()
     if w is None or cur_pid() not in w.procs:
         return _real['_exit'](status)
-    proc_exit(cur_pid(), status)
+    proc_exit(cur_pid(), status & 0xff)     # what the kernel keeps
     raise ProcessKilled()
 
 
